@@ -276,6 +276,7 @@ class VProc:
         self.touched = set()
         self._nmods = -1
         self.block = None  # (fd, exclusive) while blocked in flock()
+        self.locale = "utf-8"  # locale encoding of the current process
 
     def det_bytes(self, n):
         self._rnd += 1
@@ -312,6 +313,11 @@ class Gate:
     def current_owner(self):
         vp = current_vp()
         return vp.vid if vp is not None else None
+
+    def locale_encoding(self):
+        """what open() without an encoding uses in the calling process"""
+        vp = current_vp()
+        return getattr(vp, "locale", None) or "utf-8"
 
     def block(self, fd, exclusive):
         """the calling virtual process blocks in flock(): it is not runnable
@@ -775,6 +781,9 @@ class Sim:
                        "exit": None, "faulted": False, "settings": None}
                 vp.results.append(res)
                 vp.answers = list(cmd.get("answers", ()))
+                vp.locale = cmd.get("locale") or "utf-8"
+                if vp.locale != "utf-8":
+                    self.probe("process_with_other_locale_encoding")
                 try:
                     run_command(self, vp, cmd, res)
                     res["ok"] = True
